@@ -28,8 +28,10 @@ def build_items(tier, seed, positions=False, cases=CASES):
         items.append({'body': o['body'], 'toks': o['toks'], 'seed': rnd.randint(0, 10 ** 9), 'simple': True,
                       'layout': 'mixed', 'case': cases[k % len(cases)], 'positions': positions})
     # statement programs: every production, random layout, comments and optional words
-    for k, o in enumerate(out[ntrees:]):
-        for rep in range(2):
+    stmts = out[ntrees:]
+    for k, o in enumerate(stmts):
+        # the form-cover programs (at the end) are written with every choice of the optional words
+        for rep in range(3 if k >= len(stmts) - oalcheck.NCOVER else 2):
             items.append({'body': o['body'], 'toks': o['toks'], 'seed': rnd.randint(0, 10 ** 9),
                           'layout': ['mixed', 'dense', 'plain'][(k + rep) % 3], 'case': cases[(k + rep) % len(cases)],
                           'keep': [None, True, False][(k + rep) % 3], 'positions': positions})
